@@ -262,8 +262,11 @@ def run(tier, seed, replay=None):
                        "what": "the serialized document, read as Draft 6 (Spec6.v, documented deviations), does not accept exactly what the element accepts"})
     codes2, err2 = sc.eval_codes(["Elem", "Validate", "SerJson", "RunSer"], "run_ser_case", ser_cases, tag="c03s", shard=60)
     res.corr_error = err or err2
+    # code 9 = the tree lies in the fragment of the meaning theorem C03_meaning (SerFrag.dslb, proved sound): there the
+    # model document means what the model element means by theorem, so the implementation is tied by correspondence alone
+    stats["theorem_applies"] = {"trees": sum(1 for cs in (codes2 or {}).values() if 9 in cs), "of": len(ser_cases)}
     res.corr_mismatches = [{"doc": ser_meta[i][0], "impl_document": ser_meta[i][1], "what": "SerJson.ser_doc differs from serialize_json's output"}
-                           for i in sorted(codes2 or {})]
+                           for i in sorted(codes2 or {}) if 1 in codes2[i]]
     res.witness_status = {"C03-K15": "fails" if stats["k15"] else "not-exercised"}
     res.coverage["distribution"] = stats
     res.coverage["traces_validated_against_impl"] = len(ser_cases) + len(doc_cases)
